@@ -358,6 +358,10 @@ func (P *Program) registerCSV() {
 	for _, n := range []string{"gzipDecompress", "gzipDecompressWithBuffer"} {
 		P.reg(DBP+"."+n, decompress)
 	}
+	for n, f := range map[string]func(string) string{"Base": filepath.Base, "Dir": filepath.Dir, "Ext": filepath.Ext} {
+		f := f
+		P.reg("path/filepath."+n, func(fr *frame, args []value) value { return f(fr.in.goStr(args[0], "path")) })
+	}
 	P.reg("path/filepath.Clean", func(fr *frame, args []value) value {
 		if s, ok := args[0].(string); ok {
 			return filepath.Clean(s)
